@@ -212,7 +212,7 @@ def run(ctx):
     H.arm_early_stop()
     ctx.pmap(task_fn, order, chunk=max(1, len(order) // (core.NCPU * 8)))
     ctx.pmap(second_model_task, second_model_cases(ctx.tier))
-    ctx.require(ctx.n('second_model_links_checked') >= 100, 'second-model family did not run (%d links checked)' % ctx.n('second_model_links_checked'))
+    ctx.require(ctx.n('second_model_links_checked') >= 40, 'second-model family did not run (%d links checked)' % ctx.n('second_model_links_checked'))
     C05.guards(ctx, tasks)
     ctx.require(ctx.n('layout:lines') >= ctx.nd('programs'), 'the multi-line layout was not applied to every program')
     ctx.require(ctx.n('layout:upper') >= 800 and ctx.n('layout:cap') >= 600,
